@@ -1,6 +1,6 @@
 (* Executable comparison of the model with observations of the implementation (written by the harness).
    The Go library's answers arrive as finite tables (every argument the model can ask about on that input). *)
-From Coq Require Import List NArith ZArith Bool String.
+From Coq Require Import List NArith ZArith Bool String Ascii.
 From Coq.Strings Require Import Byte.
 Import ListNotations.
 From BWValues Require Import Bytes Values Codec Uuid Io Dom.
@@ -182,15 +182,34 @@ Fixpoint in_domain_from (i : N) (l : list case) : list N :=
 
 End WithOracles.
 
-(* ---- C06: pre-images as numbers for the harness to hash *)
-Definition bytes_N (s : str) : list N := map Byte.to_N s.
+(* ---- C06: pre-images rendered as one text for the harness to hash: one line per value, ":" then the hex bytes
+   (three comma-separated components for a triple), "!" when the model says UUID() panics *)
+Definition hexd (n : N) : Ascii.ascii :=
+  match n with
+  | 0 => "0" | 1 => "1" | 2 => "2" | 3 => "3" | 4 => "4" | 5 => "5" | 6 => "6" | 7 => "7" | 8 => "8" | 9 => "9"
+  | 10 => "a" | 11 => "b" | 12 => "c" | 13 => "d" | 14 => "e" | _ => "f"
+  end%char%N.
 
-(* result: None = the model says UUID() panics; Some [c] for a component value, Some [s;p;o] for a triple *)
-Definition preimage (v : value) : option (list (list N)) :=
-  match v with
-  | VNode n => Some [bytes_N (pre_node n)]
-  | VPred p => Some [bytes_N (pre_pred p)]
-  | VLit l => match pre_literal l with Ok b => Some [bytes_N b] | _ => None end
-  | VObj o => match pre_object o with Ok b => Some [bytes_N b] | _ => None end
-  | VTriple t => match pre_triple t with Ok (a, b, c) => Some [bytes_N a; bytes_N b; bytes_N c] | _ => None end
+Fixpoint hex_of (s : str) (k : string) : string :=
+  match s with
+  | [] => k
+  | b :: r => String (hexd (Byte.to_N b / 16)) (String (hexd (Byte.to_N b mod 16)) (hex_of r k))
   end.
+
+Definition nl : Ascii.ascii := "010"%char.
+Definition bang (k : string) : string := String "!"%char (String nl k).
+
+Definition pre_str (v : value) (k : string) : string :=
+  String ":"%char
+  match v with
+  | VNode n => hex_of (pre_node n) (String nl k)
+  | VPred p => hex_of (pre_pred p) (String nl k)
+  | VLit l => match pre_literal l with Ok b => hex_of b (String nl k) | _ => bang k end
+  | VObj o => match pre_object o with Ok b => hex_of b (String nl k) | _ => bang k end
+  | VTriple t => match pre_triple t with
+                 | Ok (a, b, c) => hex_of a (String ","%char (hex_of b (String ","%char (hex_of c (String nl k)))))
+                 | _ => bang k
+                 end
+  end.
+
+Definition preimages_text (vs : list value) : list string := map (fun v => pre_str v EmptyString) vs.
